@@ -116,7 +116,7 @@ var c09Check = register("C09", "c09.size", func(c *sizeCase) error {
 	return nil
 })
 
-const c09Rule = "C09: NewMnemonicByEntropy on nil and on every slice length of a contiguous range from 0 (content patterns, spare capacity) and a few huge lengths; NewMnemonic on every int of a contiguous range around zero, multiples of 3 outside 12..24, the extremes of int, rapid Int draws — each under supported and unsupported languages, under a counting source installed through the verif hook. Oracle: success iff the size is one of the five, otherwise (\"\", sentinel) and zero Read calls. Non-trivial: a size other than the six lengths / six counts the suite samples (1,16,17,33 bytes; 1,12,13,25 words); distinct by (op, size, language)"
+const c09Rule = "C09: NewMnemonicByEntropy on nil and on every slice length of a contiguous range from 0 (content patterns, spare capacity) and a few huge lengths; NewMnemonic on every int of a contiguous range around zero, multiples of 3 outside 12..24, the extremes of int, rapid Int draws \u2014 each under supported and unsupported languages, under a counting source installed through the verif hook. Oracle: success iff the size is one of the five, otherwise (\"\", sentinel) and zero Read calls. Non-trivial: a size other than the six lengths / six counts the suite samples (1,16,17,33 bytes; 1,12,13,25 words); distinct by (op, size, language)"
 
 func c09Record(c *sizeCase) {
 	cov.Eval(1)
